@@ -710,8 +710,14 @@ def _split_path(p):
 KEY_ALIASES = {}      # renamed function -> reviewed name (engine.normalise)
 
 
+_ORD_MINMAX = re.compile(r'^(?:<\w+ as Ord>|cmp|u8|u16|u32|u64|u128|usize|i8|i16|i32|i64|i128|isize)::(min|max)$')
+
+
 def callee_key(callee):
     k = _callee_key(callee)
+    m = _ORD_MINMAX.match(k)
+    if m:                       # `a.min(b)`, `cmp::min(a, b)`, `Ord::min(a, b)`: one function
+        return 'Ord::' + m.group(1)
     return KEY_ALIASES.get(k, k) if KEY_ALIASES else k
 
 
